@@ -232,6 +232,10 @@ class IdleReleaseDecorator(BaseRuntimeDecorator):
         if workflow is None:
             raise ValueError(f"Workflow {handler.workflow_name} not found")
         replayed = await self._persistence.context_from_ticks(workflow, run_id)
+        if run_id in self._active_run_ids:
+            # The startup resume brought the run back while the store reads
+            # above were suspended; starting it again would fail.
+            return
         context = replayed.context if replayed is not None else None
         workflow.run(ctx=context, run_id=run_id)
         self._active_run_ids.add(run_id)
